@@ -1,0 +1,25 @@
+//go:build verif
+
+// Contracts for govc (see /verif/DESIGN.md). Comment-only: no executable code with or without the tag.
+
+package min
+
+//@ import bytes "bytes"
+//@ import net "net"
+//@ import transports "github.com/refraction-networking/conjure/pkg/transports"
+
+// C02 (min transport): a connection is matched only if its first 32 bytes are, byte for byte, the identifier under
+// which a currently valid registration is tracked FOR THE PHANTOM THE CONNECTION WAS SENT TO, and it is matched to
+// exactly that registration; any other first flight (short, altered anywhere in the tag, a tag of another phantom)
+// yields ErrTryAgain / ErrNotTransport and consumes nothing. C04: exactly the 32 tag bytes are consumed on a match.
+// C11: no slice expression can go out of range ("checks safety").
+//@ func (t Transport) WrapConnection(data *bytes.Buffer, c net.Conn, originalDst net.IP, regManager transports.RegManager) (transports.Registration, net.Conn, error)
+//@   requires data != nil && regManager != nil
+//@   let tag := old(bufStr(data))[0:32]
+//@   ensures @C02: result2 == nil ==> old(len(bufStr(data))) >= 32 && tag in validRegs(regManager, originalDst) && result0 == validRegs(regManager, originalDst)[tag]
+//@   ensures @C02 @C03: result2 != nil ==> result0 == nil && result1 == nil && bufStr(data) == old(bufStr(data)) && (result2 == transports.ErrTryAgain || result2 == transports.ErrNotTransport)
+//@   ensures @C03: old(len(bufStr(data))) < 32 ==> result2 == transports.ErrTryAgain
+//@   ensures @C03: old(len(bufStr(data))) >= 32 && !(tag in validRegs(regManager, originalDst)) ==> result2 == transports.ErrNotTransport
+//@   ensures @C04: result2 == nil ==> bufStr(data) == old(bufStr(data))[32:]
+//@   ensures @C11: true
+//@   checks safety
